@@ -301,4 +301,104 @@ theorem fold_segment (m : Media) (ck : Option Key) (s : Segment) (hw : wfSegment
   | some l => simp [Segment.quantise]
 
 end
+
+/-! ## all segments, whole playlist -/
+
+/-- `curKey` after the segments -/
+def lastKey : Option Key → List Segment → Option Key
+  | prev, [] => prev
+  | prev, s :: rest =>
+    match s.key with
+    | some k => lastKey (some k) rest
+    | none => lastKey prev rest
+
+section
+variable {C : Codec} (hC : C.Valid)
+include hC
+
+theorem fold_segments : ∀ (segs : List Segment) (m : Media) (prev : Option Key),
+    segs.all wfSegment = true → keyPersist prev.isSome segs = true →
+    (segmentsLines C prev segs).foldlM (step C) { m := m, curKey := prev, cur := {} } =
+      .ok { m := { m with segments := m.segments ++ segs.map (Segment.quantise C) },
+            curKey := lastKey prev segs, cur := {} }
+  | [], m, prev, _, _ => by simp [segmentsLines, lastKey]
+  | s :: rest, m, prev, hw, hk => by
+    simp only [List.all_cons, Bool.and_eq_true] at hw
+    obtain ⟨hws, hwr⟩ := hw
+    cases hkey : s.key with
+    | none =>
+      have hprev : prev = none := by
+        simp only [keyPersist, hkey, Bool.and_eq_true, Bool.not_eq_true'] at hk
+        cases prev with
+        | none => rfl
+        | some _ => simp at hk
+      subst hprev
+      have hk' : keyPersist (none : Option Key).isSome rest = true := by
+        simp only [keyPersist, hkey, Bool.and_eq_true] at hk
+        exact hk.2
+      simp only [segmentsLines, hkey, lastKey, List.foldlM_append, fold_segment hC m none s hws, Res.ok_bind]
+      rw [fold_segments rest _ none hwr hk']
+      have : ({ Segment.quantise C s with key := none } : Segment) = Segment.quantise C s := by
+        simp [Segment.quantise, hkey]
+      simp [this]
+    | some k =>
+      have hk' : keyPersist (some k).isSome rest = true := by
+        simpa [keyPersist, hkey] using hk
+      have hwk : wfKey k = true := by
+        simp only [wfSegment, Bool.and_eq_true, hkey, Option.all_some] at hws
+        exact hws.1.2
+      have hq : ({ Segment.quantise C s with key := some k } : Segment) = Segment.quantise C s := by
+        simp [Segment.quantise, hkey]
+      simp only [segmentsLines, hkey, lastKey]
+      split
+      · simp only [List.foldlM_cons, keyLine, step_key, Key.roundtrip hwk, Res.ok_bind, Res.pure_eq,
+          List.foldlM_append, fold_segment hC m (some k) s hws]
+        rw [fold_segments rest _ (some k) hwr hk']
+        simp [hq]
+      · rename_i hne
+        have hprev : prev = some k := by
+          cases prev with
+          | none => simp at hne
+          | some k' =>
+            simp only [reduceCtorEq, Option.some.injEq, false_or, Decidable.not_not] at hne
+            rw [hne]
+        subst hprev
+        simp only [List.foldlM_append, fold_segment hC m (some k) s hws, Res.ok_bind]
+        rw [fold_segments rest _ (some k) hwr hk']
+        simp [hq]
+
+theorem fold_header (p : Media) (hw : WFMedia p) :
+    (Media.headerLines C p).foldlM (step C) {} =
+      .ok { m := { version := p.version, independentSegments := p.independentSegments,
+                   start := p.start.map C.requant, allowCache := p.allowCache, targetDuration := p.targetDuration,
+                   serverControl := p.serverControl.map (ServerControl.quantise C),
+                   partInf := p.partInf.map C.requant, mediaSequence := p.mediaSequence,
+                   discontinuitySequence := p.discontinuitySequence, playlistType := p.playlistType,
+                   map := p.map, skip := p.skip },
+            curKey := none, cur := {} } := by
+  simp only [WFMedia, wfMedia, Bool.and_eq_true, decide_eq_true_eq] at hw
+  obtain ⟨⟨⟨⟨⟨⟨⟨⟨⟨⟨⟨⟨⟨⟨⟨⟨hv0, hv1⟩, htd⟩, htd0⟩, hms⟩, hds⟩, hsk⟩, hst⟩, hsc⟩, hpi⟩, hpt⟩, hmap⟩, _⟩, _⟩, _⟩, _⟩, _⟩ := hw
+  simp only [Media.headerLines, List.foldlM_append, List.foldlM_cons, List.foldlM_nil,
+    chunk_version C _ _ hv0 hv1, chunk_independent, chunk_start hC _ _ hst, chunk_allowCache,
+    chunk_targetDuration C _ _ htd, chunk_serverControl hC _ _ hsc, chunk_partInf hC _ _ hpi,
+    chunk_mediaSequence C _ _ hms, chunk_discontinuitySequence C _ _ hds, chunk_playlistType C _ _ hpt,
+    chunk_map C _ _ hmap, chunk_skip C _ _ hsk, Res.ok_bind, Res.pure_eq]
+  simp
+
+/-- the decoder run over all lines of `marshal p` -/
+theorem fold_lines (p : Media) (hw : WFMedia p) :
+    ((Media.lines C p).foldlM (step C) {} >>= finish) = .ok (Media.quantise C p) := by
+  have hw' := hw
+  simp only [WFMedia, wfMedia, Bool.and_eq_true, decide_eq_true_eq] at hw'
+  obtain ⟨⟨⟨⟨⟨⟨⟨⟨⟨⟨⟨⟨⟨⟨⟨⟨_, _⟩, _⟩, htd0⟩, _⟩, _⟩, _⟩, _⟩, _⟩, _⟩, _⟩, _⟩, hne⟩, hsegs⟩, hkp⟩, hparts⟩, hhint⟩ := hw'
+  simp only [Media.lines, Media.tailLines, List.foldlM_append, fold_header hC p hw, Res.ok_bind]
+  rw [fold_segments hC p.segments _ none hsegs (by simpa using hkp)]
+  simp only [Res.ok_bind, fold_parts hC _ _ hparts, chunk_hint C _ _ hhint, chunk_endlist]
+  have hne' : p.segments ≠ [] := by simpa using hne
+  simp only [finish]
+  rw [if_neg htd0, if_neg (by simpa using hne')]
+  obtain ⟨version, is, start, ac, td, sc, pi, ms, ds, pt, map, skip, segs, parts, ph, el⟩ := p
+  simp [Media.quantise]
+
+end
 end Hls.Playlist.MP
